@@ -169,6 +169,15 @@ def one_case(ctx, k):
                 tag = f"fa{cores}{ext}"
                 argv = base + (["-j", "2", "--buffer-size", "2000"] if cores == 2 else []) + ["-o", f"n1_{cores}{ext}"] + (["-p", f"n2_{cores}{ext}"] if paired else []) + ins
                 variant(f"name={ext} cores={cores}", argv, [(f"n1_{cores}{ext}", 1)] + ([(f"n2_{cores}{ext}", 2)] if paired else []), expect_fmt="fasta")
+        # --- the name that was given decides, also when it is a symbolic link to a file called otherwise
+        if not paired:
+            os.makedirs(os.path.join(d, "store"), exist_ok=True)
+            for link, target in (("ln1.fasta", "store/blob.dat"), ("ln2.fa.gz", "store/blob.bin.gz")):
+                if not os.path.lexists(os.path.join(d, link)):
+                    os.symlink(target, os.path.join(d, link))
+            lk = rng.choice(["ln1.fasta", "ln2.fa.gz"])
+            cores = rng.choice([1, 2])
+            variant(f"symlinked-name={lk} cores={cores}", base + (["-j", "2", "--buffer-size", "2000"] if cores == 2 else []) + ["-o", lk] + ins, [(lk, 1)], expect_fmt="fasta")
         # --- names outside the documented four (other spellings, upper case, legacy extensions): whatever format the plain
         #     single-core run of that name produces, every compression suffix and core count must produce the same
         for stem in rng.sample([".FASTA", ".Fa", ".FQ", ".fna", ".csfasta", ".csfa", "_sequence.txt", ".txt", ".seq", ".fastq.txt"], 2 if ctx.tier == "quick" else 5):
